@@ -249,6 +249,15 @@ package radius
 //@   sets authAccepted = err == nil && result != nil && result.Accepted
 
 // ---- policy.go: read by the QoS manager (C19) ----
+//@ type PolicyManager
+//@   owns mu: policies
+
+// "the policy set through the control plane is the one enforced": after AddPolicy the name resolves to
+// exactly the limits given -- including a rate of 0 (unlimited) and a burst of 0 (default)
+//@ func (pm *PolicyManager) AddPolicy
+//@   requires policy != nil
+//@   ensures err == nil ==> policy.Name in pm.policies && pm.policies[policy.Name] != nil
+//@   ensures err == nil ==> pm.policies[policy.Name].DownloadBPS == policy.DownloadBPS && pm.policies[policy.Name].UploadBPS == policy.UploadBPS && pm.policies[policy.Name].BurstSize == policy.BurstSize && pm.policies[policy.Name].Priority == policy.Priority
 //@ func (pm *PolicyManager) GetPolicy
 //@   trusted reads the policy table under its own lock
 //@   modifies nothing
